@@ -528,7 +528,13 @@ func (a *LockAnalysis) flowBlock(c *LockCtx, b *ssa.BasicBlock, st LState, rec b
 		case *ssa.Go:
 			callee := staticCallee(x)
 			if callee != nil && a.P.InScope[callee] {
-				sub := a.analyze(callee, LkReleased)
+				// a goroutine that spawns its own function is not recursion: the spawner does not wait for it
+				var sub *LockCtx
+				if busy := a.Ctx[lockCtxKey{callee, LkReleased}]; busy != nil && busy.busy {
+					sub = busy
+				} else {
+					sub = a.analyze(callee, LkReleased)
+				}
 				if rec {
 					e := &LockCall{Caller: c, Instr: x, Callee: sub, State: st, Go: true}
 					c.Calls = append(c.Calls, e)
